@@ -83,6 +83,7 @@ pub fn run(prop: &str, tier: Tier) -> (RunMeta, Acc) {
             let parts = vec![
                 Part::new(std.base_list(), usize::MAX, usize::MAX, CfgRule::Fixed(cfgs.clone())),
                 Part::new(p_off::off_pool(sb.clone()), 12_000, usize::MAX, CfgRule::Fixed(cfgs.clone())),
+                Part::new(p_off::off3_pool(sb.clone()), 5_000, usize::MAX, CfgRule::Fixed(cfgs.clone())),
             ];
             let (mut acc, pm) = workload::run_parts(&parts, tier, seed, |part, case, _, acc| {
                 if let CfgRule::Fixed(c) = &part.cfg {
